@@ -1,4 +1,6 @@
 import WfProofs.DeployId
+import WfProofs.DeployIdExt
+import WfProofs.DeployIdRx
 /-!
 # C32 — generated deployment ids are valid DNS-1035 labels
 
@@ -104,7 +106,8 @@ theorem C32_first_try (name : List Char) (rest : List Bool) (ds : List Draw)
   have : needsSuffix name false = false := by
     simp only [needsSuffix, Bool.or_false, decide_eq_false_iff_not, Nat.not_lt]
     exact h3
-  simp [findId, this, findLoop]
+  have hl : loopCount = 98 + 1 := rfl
+  simp [findId, this, hl, findLoop]
 
 /-! Non-vacuity: concrete names exercising each branch. -/
 example : findId "my service".toList false [true] [] = some "my-service".toList := by decide
@@ -113,3 +116,398 @@ example : findId "".toList false [false, true] [⟨"0beef".toList, 'c'⟩, ⟨"1
     = some "f2345".toList := by decide
 example : wfDraw ⟨"0beef".toList, 'c'⟩ = true := by decide
 example : isDns1035 "d-1-0beef".toList = true := by decide
+
+
+/-! ## Extension: the retry loop for every history, the word-join specification, completeness of
+the derivation, the shape of suffixed ids, reserved names -/
+
+/-- The control shape the model is cut along, regenerated from `/repo` on every run with locals
+spelt positionally (`p`*i* = *i*-th parameter, `v`*i* = *i*-th local of the expression, locals
+bound once to an integer literal replaced by it): the loop is `for _ in range(1, 100)` without
+`else`, followed by the `raise`; its body validates the current id and otherwise re-suffixes the
+*base* id, which is the truncated and stripped one; the truncation arithmetic and join of
+`_append_random_suffix`; the tests choosing each branch; the way `create_deployment` computes
+`force_suffix`.  The reserved-id table is regenerated too but not pinned: the theorems below are
+re-checked against whatever it lists now. -/
+theorem C32_source_shape_control :
+    Gen.DeployId.loopStart = 1 ∧ Gen.DeployId.loopStop = 100 ∧ Gen.DeployId.loopArgs = 2 ∧
+    Gen.DeployId.loopHasElse = false ∧ Gen.DeployId.raiseAfterLoop = true ∧
+    Gen.DeployId.baseIsTruncated = true ∧ Gen.DeployId.retryUsesBase = true ∧
+    Gen.DeployId.loopBody =
+      "if await validate_deployment_id(v0): return v0 ; v0 = _append_random_suffix(v1, 63)" ∧
+    Gen.DeployId.toTake = "p1 - 5 - 1" ∧ Gen.DeployId.suffixFormat = "f'{p0[:v0]}-{v1}'" ∧
+    Gen.DeployId.truncate = "v0[:63].rstrip('-')" ∧
+    Gen.DeployId.prefixTest = "v0 and (not v0[0].isalpha())" ∧
+    Gen.DeployId.suffixTest = "v0 < 3 or p1" ∧ Gen.DeployId.emptyTest = "not p0" ∧
+    Gen.DeployId.digitTest = "v0[0].isdigit()" ∧
+    Gen.DeployId.digitFix = "random.choice('abcdef') + v0[1:]" ∧ Gen.DeployId.choicesK = "5" ∧
+    Gen.DeployId.lowerExpr = "p0.lower()" ∧
+    Gen.DeployId.forceExpr = "p1.lower() in reserved_deployment_ids" ∧
+    Gen.DeployId.forceCall = "find_deployment_id(p1, force_suffix=v0)" ∧
+    Gen.DeployId.reservedIds ≠ [] ∧ "<missing>" ∉ Gen.DeployId.reservedIds ∧
+    loopCount = 99 := by decide
+
+/-! ### the retry loop, for every sequence of answers and draws -/
+
+/-- Closed form of `find_deployment_id` for every history: with `k` the position of the first
+"free" answer, the result is the `k`-th candidate (`cands`: the base id unless a suffix is needed
+at once, then one freshly suffixed base per draw) if `k < 99`, and the `ValueError` otherwise
+(also when answers or draws run out first). -/
+theorem C32_loop_closed_form (name : List Char) (force : Bool) (answers : List Bool)
+    (ds : List Draw) :
+    findId name force answers ds =
+      if answers.idxOf true < 99 ∧ answers.idxOf true < answers.length then
+        (cands name force ds)[answers.idxOf true]?
+      else none := by
+  rw [findId_closed, loopCount_eq]
+
+example : findId "ab".toList false [false, false, true]
+    [⟨"11111".toList, 'a'⟩, ⟨"22222".toList, 'b'⟩, ⟨"33333".toList, 'c'⟩]
+    = some "ab-33333".toList := by decide
+example : (cands "ab".toList false
+    [⟨"11111".toList, 'a'⟩, ⟨"22222".toList, 'b'⟩, ⟨"33333".toList, 'c'⟩])[2]?
+    = some "ab-33333".toList := by decide
+
+/-- When the derivation gives up (`ValueError`): exactly when no "free" answer comes within the
+first 99 lookups, or the candidates (draws) run out before it. -/
+theorem C32_gives_up_iff (name : List Char) (force : Bool) (answers : List Bool) (ds : List Draw) :
+    findId name force answers ds = none ↔
+      ¬ (answers.idxOf true < 99 ∧ answers.idxOf true < answers.length ∧
+          answers.idxOf true < (cands name force ds).length) := by
+  rw [C32_loop_closed_form]
+  split
+  · rename_i h
+    rw [List.getElem?_eq_none_iff]
+    constructor
+    · intro hl hc; omega
+    · intro hc
+      apply Decidable.byContradiction
+      intro hlt
+      exact hc ⟨h.1, h.2, by omega⟩
+  · rename_i h
+    constructor
+    · intro _ hc; exact h ⟨hc.1, hc.2.1⟩
+    · intro _; rfl
+
+example : findId "abc".toList false (List.replicate 99 false ++ [true])
+    (List.replicate 100 ⟨"0beef".toList, 'c'⟩) = none := by decide +kernel
+example : findId "abc".toList false (List.replicate 98 false ++ [true])
+    (List.replicate 100 ⟨"0beef".toList, 'c'⟩) = some "abc-0beef".toList := by decide +kernel
+
+/-- With enough draws, a "free" answer within the first 99 lookups always yields an id. -/
+theorem C32_finds_when_free (name : List Char) (force : Bool) (answers : List Bool) (ds : List Draw)
+    (hds : 99 ≤ ds.length) (hfree : true ∈ answers.take 99) :
+    ∃ r, findId name force answers ds = some r := by
+  cases h : findId name force answers ds with
+  | some r => exact ⟨r, rfl⟩
+  | none =>
+    exfalso
+    rw [C32_gives_up_iff] at h
+    apply h
+    have hlt : (answers.take 99).idxOf true < (answers.take 99).length := List.idxOf_lt_length_of_mem hfree
+    have hidx : (answers.take 99).idxOf true = answers.idxOf true := by
+      have hsplit := List.take_append_drop 99 answers
+      conv => rhs; rw [← hsplit]
+      rw [List.idxOf_append, if_pos hfree]
+    rw [List.length_take] at hlt
+    rw [hidx] at hlt
+    have hc : 99 ≤ (cands name force ds).length := by
+      unfold cands; simp only; split <;> simp <;> omega
+    omega
+
+/-- The loop as the code runs it, with `validate_deployment_id` a function of the lookup's index
+and of the id asked about (the cluster may change between lookups): the id returned is exactly
+the candidate the last lookup was asked about and reported free; every earlier candidate was
+asked about once, in order, and reported taken; at most 99 lookups are made. -/
+theorem C32_returned_was_validated (avail : Nat → List Char → Bool) (name : List Char)
+    (force : Bool) (ds : List Draw) (r : List Char) (m : Nat)
+    (h : findIdO avail name force ds = (some r, m)) :
+    1 ≤ m ∧ m ≤ 99 ∧ (cands name force ds)[m - 1]? = some r ∧ avail (m - 1) r = true ∧
+      ∀ j, j < m - 1 → ∀ c, (cands name force ds)[j]? = some c → avail j c = false := by
+  unfold findIdO at h
+  simp only at h
+  unfold cands
+  simp only
+  split at h
+  · rename_i hns
+    simp only [hns, if_true]
+    match ds, h with
+    | d :: ds', h =>
+      simp only at h
+      obtain ⟨i, hi, hm, hget, hav, hall⟩ := findLoopO_spec _ avail _ 0 _ ds' r m h
+      rw [loopCount_eq] at hi
+      have hm1 : m - 1 = i := by omega
+      rw [hm1]
+      refine ⟨by omega, by omega, by simpa using hget, by simpa using hav, ?_⟩
+      intro j hj c hc
+      have := hall j hj c (by simpa using hc)
+      simpa using this
+  · rename_i hns
+    simp only [hns]
+    obtain ⟨i, hi, hm, hget, hav, hall⟩ := findLoopO_spec _ avail _ 0 _ ds r m h
+    rw [loopCount_eq] at hi
+    have hm1 : m - 1 = i := by omega
+    rw [hm1]
+    refine ⟨by omega, by omega, by simpa using hget, by simpa using hav, ?_⟩
+    intro j hj c hc
+    have := hall j hj c (by simpa using hc)
+    simpa using this
+
+example : findIdO (fun k _ => decide (k = 2)) "ab".toList false
+    [⟨"11111".toList, 'a'⟩, ⟨"22222".toList, 'b'⟩, ⟨"33333".toList, 'c'⟩]
+    = (some "ab-33333".toList, 3) := by decide
+
+/-- …and when it gives up, every lookup made was about the next candidate in order and was
+answered "taken"; it made all 99 lookups, or stopped earlier only because draws ran out. -/
+theorem C32_gave_up_after_all_taken (avail : Nat → List Char → Bool) (name : List Char)
+    (force : Bool) (ds : List Draw) (m : Nat) (h : findIdO avail name force ds = (none, m)) :
+    m ≤ 99 ∧ (m = 99 ∨ m = (cands name force ds).length) ∧
+      ∀ j, j < m → ∀ c, (cands name force ds)[j]? = some c → avail j c = false := by
+  unfold findIdO at h
+  simp only at h
+  unfold cands
+  simp only
+  split at h
+  · rename_i hns
+    simp only [hns, if_true]
+    match ds, h with
+    | [], h =>
+      simp only [Prod.mk.injEq, true_and] at h
+      subst h
+      exact ⟨by omega, Or.inr (by simp), by intro j hj; omega⟩
+    | d :: ds', h =>
+      simp only at h
+      obtain ⟨i, hm, hi, hall⟩ := findLoopO_none _ avail _ 0 _ ds' m h
+      rw [loopCount_eq] at hi
+      have hmi : m = i := by omega
+      subst hmi
+      refine ⟨by omega, ?_, ?_⟩
+      · rcases hi with hi | hi
+        · exact Or.inl hi
+        · exact Or.inr (by simp; omega)
+      · intro j hj c hc
+        have := hall j hj c (by simpa using hc)
+        simpa using this
+  · rename_i hns
+    simp only [hns]
+    obtain ⟨i, hm, hi, hall⟩ := findLoopO_none _ avail _ 0 _ ds m h
+    rw [loopCount_eq] at hi
+    have hmi : m = i := by omega
+    subst hmi
+    refine ⟨by omega, ?_, ?_⟩
+    · rcases hi with hi | hi
+      · exact Or.inl hi
+      · exact Or.inr (by simp; omega)
+    · intro j hj c hc
+      have := hall j hj c (by simpa using hc)
+      simpa using this
+
+example : findIdO (fun _ _ => false) "abc".toList false (List.replicate 100 ⟨"0beef".toList, 'c'⟩)
+    = (none, 99) := by decide +kernel
+
+/-- The oracle form and the answer-list form are the same function: run the list form on the
+answers the oracle gives for the candidates in order.  Hence every theorem about `findId`
+(valid label, derived or suffixed, …) holds of `findIdO` too. -/
+theorem C32_oracle_agrees (avail : Nat → List Char → Bool) (name : List Char) (force : Bool)
+    (ds : List Draw) :
+    (findIdO avail name force ds).1 =
+      findId name force (oracleAnswers avail 0 (cands name force ds)) ds := by
+  unfold findIdO findId cands
+  simp only
+  split
+  · cases ds with
+    | nil => rfl
+    | cons d ds' => simp only [List.map_cons]; exact findLoopO_eq _ avail _ 0 _ ds'
+  · exact findLoopO_eq _ avail _ 0 _ ds
+
+theorem C32_oracle_valid_label (avail : Nat → List Char → Bool) (name : List Char) (force : Bool)
+    (ds : List Draw) (hds : ∀ d ∈ ds, wfDraw d = true) (r : List Char) (m : Nat)
+    (h : findIdO avail name force ds = (some r, m)) : isDns1035 r = true := by
+  have := C32_oracle_agrees avail name force ds
+  rw [h] at this
+  exact C32_valid_label name force _ ds hds r this.symm
+
+/-! ### what the three `re.sub` passes compute -/
+
+/-- Refinement to the specification: lower-casing aside, the sanitised name (the three `re.sub`
+passes) is the name's maximal runs of `[a-z0-9]` joined by single hyphens; the base id is that,
+`d-`-prefixed when it starts with a digit, cut at 63 and stripped of a trailing hyphen. -/
+theorem C32_words_refinement (name : List Char) :
+    stripEnds (collapse (sanitize name)) = hyphenJoin (words name) ∧
+    baseId name = rstrip ((addPrefix (hyphenJoin (words name))).take 63) := by
+  refine ⟨sanitized_eq_join name, ?_⟩
+  rw [baseId_def, preId_eq_join]; rfl
+
+example : words "--My  s3rvice_!x ".toList = ["y".toList, "s3rvice".toList, "x".toList] := by decide
+example : baseId "  9 lives--left ".toList = "d-9-lives-left".toList := by decide
+
+/-- Completeness of the derivation: unless the 63-character cut applies, the base id is the whole
+word-join (so its alphanumerics are *all* of the name's, after the synthetic `d`); when the cut
+applies, at least 62 characters are kept. -/
+theorem C32_base_complete_or_truncated (name : List Char) :
+    ((addPrefix (hyphenJoin (words name))).length ≤ 63 →
+        baseId name = addPrefix (hyphenJoin (words name)) ∧
+        (baseId name).filter isAlnum = dPrefix name ++ name.filter isAlnum) ∧
+    (63 < (addPrefix (hyphenJoin (words name))).length → 62 ≤ (baseId name).length) := by
+  rw [← preId_eq_join]
+  refine ⟨fun h => ?_, baseId_of_long name⟩
+  have hb := baseId_of_short name h
+  refine ⟨hb, ?_⟩
+  rw [hb]; exact filter_addPrefix name
+
+example : (addPrefix (hyphenJoin (words "my service".toList))).length ≤ 63 := by decide
+example : 63 < (addPrefix (hyphenJoin (words (List.replicate 40 'a' ++ ' ' :: List.replicate 40 'b')))).length := by
+  decide +kernel
+
+/-- The base id has no two adjacent hyphens, is empty exactly for names without alphanumerics,
+and is a fixed point of the derivation (an id fed back as a display name derives itself). -/
+theorem C32_base_canonical (name : List Char) :
+    NoDouble (baseId name) ∧ (baseId name = [] ↔ alnumCount name = 0) ∧
+      baseId (baseId name) = baseId name :=
+  ⟨baseId_noDouble name, baseId_eq_nil_iff name, baseId_idem name⟩
+
+example : baseId "a--b".toList = "a-b".toList ∧ baseId "a-b".toList = "a-b".toList := by decide
+
+/-- What "carries a random suffix" means, for every base and every well-formed draw: a non-empty
+base is cut at 57 characters and followed by `-` and the five drawn hex characters (63 at most);
+an empty base gives the five drawn characters with a leading digit replaced by the drawn letter. -/
+theorem C32_suffix_shape (name : List Char) (d : Draw) (hd : wfDraw d = true) :
+    (baseId name ≠ [] →
+        appendSuffix (baseId name) d = (baseId name).take 57 ++ '-' :: d.hex ∧
+        (appendSuffix (baseId name) d).length = min (baseId name).length 57 + 6) ∧
+    (baseId name = [] →
+        ∃ h t, d.hex = h :: t ∧ t.length = 4 ∧
+          appendSuffix (baseId name) d = (if isDigit h then d.alt else h) :: t) := by
+  have hlen := wfDraw_length hd
+  constructor
+  · intro hne
+    cases hb : baseId name with
+    | nil => exact absurd hb hne
+    | cons c r =>
+      rw [appendSuffix_cons]
+      refine ⟨rfl, ?_⟩
+      simp only [List.length_append, List.length_take, List.length_cons, hlen]
+      omega
+  · intro he
+    rw [he]
+    match hh : d.hex, hlen with
+    | h :: t, hl =>
+      exact ⟨h, t, rfl, by simpa using hl, appendSuffix_nil d h t hh⟩
+
+example : appendSuffix (baseId "1".toList) ⟨"0beef".toList, 'c'⟩ = "d-1-0beef".toList := by decide
+example : appendSuffix (baseId "!!".toList) ⟨"0beef".toList, 'c'⟩ = "cbeef".toList := by decide
+
+/-- Clauses two and three of the property for every history at once: whatever the answers and
+draws, the id returned is a stem taken from the front of the base id (all of it, or its first 57
+characters), whose alphanumerics are the name's in order (after the synthetic `d`) — alone when
+the name has three alphanumerics, no suffix was forced and the first lookup said "free",
+otherwise followed by `-` and five drawn characters; or, for a name without alphanumerics,
+just five drawn characters starting with a letter. -/
+theorem C32_every_id_from_name (name : List Char) (force : Bool) (answers : List Bool)
+    (ds : List Draw) (r : List Char) (h : findId name force answers ds = some r) :
+    ∃ stem, stem <+: baseId name ∧ (stem = baseId name ∨ stem.length = 57) ∧
+      stem.filter isAlnum <+: dPrefix name ++ name.filter isAlnum ∧
+      ((r = stem ∧ stem = baseId name ∧ 3 ≤ alnumCount name ∧ force = false) ∨
+       (stem ≠ [] ∧ ∃ d ∈ ds, r = stem ++ '-' :: d.hex) ∨
+       (stem = [] ∧ alnumCount name = 0 ∧ ∃ d ∈ ds, r = appendSuffix [] d)) := by
+  rcases C32_derived_or_suffixed name force answers ds r h with ⟨hb, h3, hf⟩ | ⟨d, hd, hr⟩
+  · exact ⟨baseId name, List.prefix_refl _, Or.inl rfl, C32_base_from_name name,
+      Or.inl ⟨hb, rfl, h3, hf⟩⟩
+  · cases hbase : baseId name with
+    | nil =>
+      refine ⟨[], List.prefix_refl _, Or.inl rfl, by simp, Or.inr (Or.inr ⟨rfl, ?_, d, hd, ?_⟩)⟩
+      · exact (baseId_eq_nil_iff name).mp hbase
+      · rw [hr, hbase]
+    | cons c rest =>
+      refine ⟨(c :: rest).take 57, List.take_prefix _ _, ?_, ?_, Or.inr (Or.inl ⟨by simp, d, hd, ?_⟩)⟩
+      · by_cases hl : (c :: rest).length ≤ 57
+        · exact Or.inl (List.take_of_length_le hl)
+        · right; rw [List.length_take]; omega
+      · have := C32_base_from_name name
+        rw [hbase] at this
+        exact ((List.take_prefix 57 (c :: rest)).filter _).trans this
+      · rw [hr, hbase, appendSuffix_cons]
+
+example : findId "1".toList false [false, true] [⟨"0beef".toList, 'c'⟩, ⟨"12345".toList, 'f'⟩]
+    = some "d-1-12345".toList := by decide
+
+/-- The id `create_deployment` derives (no explicit id given) is a DNS-1035 label of at most 63
+characters, whatever the display name, the lookups' answers and the draws. -/
+theorem C32_derive_valid_label (name : List Char) (answers : List Bool) (ds : List Draw)
+    (hds : ∀ d ∈ ds, wfDraw d = true) (r : List Char) (h : deriveId name answers ds = some r) :
+    isDns1035 r = true ∧ r.length ≤ 63 :=
+  ⟨C32_valid_label name _ answers ds hds r h, C32_length_le name _ answers ds hds r h⟩
+
+example : deriveId "Ünï çode".toList [true] [] = some "n-ode".toList := by decide
+
+/-! ### reserved ids (`create_deployment` forces a suffix when `display_name.lower()` is reserved) -/
+
+/-- A display name that is itself a reserved id never gets a reserved id: the id always carries a
+drawn suffix, and no suffixed id equals an entry of the (regenerated) reserved table. -/
+theorem C32_reserved_name_gets_fresh_id (name : List Char) (answers : List Bool) (ds : List Draw)
+    (hds : ∀ d ∈ ds, wfDraw d = true) (hres : isReserved name = true) (r : List Char)
+    (h : deriveId name answers ds = some r) :
+    (∃ d ∈ ds, r = appendSuffix (baseId name) d) ∧ r ∉ reserved := by
+  unfold deriveId at h
+  rw [hres] at h
+  rcases C32_derived_or_suffixed name true answers ds r h with ⟨_, _, hf⟩ | ⟨d, hd, hr⟩
+  · cases hf
+  · exact ⟨⟨d, hd, hr⟩, by rw [hr]; exact appendSuffix_not_reserved _ d (hds d hd)⟩
+
+example : isReserved "version".toList = true := by decide
+example : deriveId "version".toList [true] [⟨"0beef".toList, 'c'⟩] = some "version-0beef".toList := by
+  decide
+
+/-- Full-strength clause "a derived id is never a reserved id" (the reserved ids are routes of the
+control-plane API). -/
+def C32_statement_reserved_avoided : Prop :=
+  ∀ (name : List Char) (answers : List Bool) (ds : List Draw) (r : List Char),
+    (∀ d ∈ ds, wfDraw d = true) → deriveId name answers ds = some r → r ∉ reserved
+
+/-- It is false of the code: the reserved test looks at `display_name.lower()`, the id is built
+from the *sanitised* name, so `"list projects"` (or `"Version!"`) derives a reserved id. -/
+theorem C32_reserved_avoided_refuted : ¬ C32_statement_reserved_avoided := by
+  intro h
+  exact absurd
+    (h "list projects".toList [true] [] "list-projects".toList (by simp) (by decide)) (by decide)
+
+/-- The strongest true part: the derived id is not reserved whenever the name is reserved itself
+or its base id is not a reserved id. -/
+theorem C32_reserved_avoided_partial (name : List Char) (answers : List Bool) (ds : List Draw)
+    (hds : ∀ d ∈ ds, wfDraw d = true)
+    (guard : (isReserved name || !reserved.contains (baseId name)) = true) (r : List Char)
+    (h : deriveId name answers ds = some r) : r ∉ reserved := by
+  cases hres : isReserved name with
+  | true => exact (C32_reserved_name_gets_fresh_id name answers ds hds hres r h).2
+  | false =>
+    rw [hres] at guard
+    simp only [Bool.false_or, Bool.not_eq_true', List.contains_eq_mem, decide_eq_false_iff_not] at guard
+    unfold deriveId at h
+    rcases C32_derived_or_suffixed name _ answers ds r h with ⟨hb, _, _⟩ | ⟨d, hd, hr⟩
+    · rw [hb]; exact guard
+    · rw [hr]; exact appendSuffix_not_reserved _ d (hds d hd)
+
+example : (isReserved "my service".toList || !reserved.contains (baseId "my service".toList)) = true := by
+  decide
+example : (isReserved "list projects".toList || !reserved.contains (baseId "list projects".toList)) = false := by
+  decide
+
+
+/-! ### the label predicate is the pattern of `schema/deployments.py` -/
+
+/-- `isDns1035` (the predicate every theorem above is stated with) is exactly the language of
+`_DNS_1035_RE`: the pattern, as Python's own `re._parser` parses it (regenerated on every run),
+is anchored at both ends, compiled without flags, used through `.match`, and a string matches it
+in full iff `isDns1035` holds.  (Python's `$` additionally matches before a final newline; no
+derived id contains one, by `C32_valid_label`.) -/
+theorem C32_label_predicate_is_the_regex :
+    Gen.DeployId.dnsAnchoredStart = true ∧ Gen.DeployId.dnsAnchoredEnd = true ∧
+    Gen.DeployId.dnsFlags = 0 ∧ Gen.DeployId.dnsMethod = "match" ∧
+    ∀ r : List Char, Lang Gen.DeployId.dnsRx r ↔ isDns1035 r = true :=
+  ⟨by decide, by decide, by decide, by decide,
+    fun r => (lang_dnsRx r).trans (labelShape_iff r)⟩
+
+example : Lang Gen.DeployId.dnsRx "d-1-0beef".toList :=
+  (C32_label_predicate_is_the_regex.2.2.2.2 _).mpr (by decide)
+example : ¬ Lang Gen.DeployId.dnsRx "1abc".toList :=
+  fun h => absurd ((C32_label_predicate_is_the_regex.2.2.2.2 _).mp h) (by decide)
